@@ -17,4 +17,18 @@ PROPS = {
         assumptions=COMMON + ["f64 library functions (powf, fmod) are trusted: the reference calls the same libm",
                               "MIN % -1 may be 0 or an arithmetic error (both documented readings accepted)"],
     ),
+    "C10": dict(
+        rule="a case is one call f(v): f one of the 49 builtin names (plus 3 non-builtin names that must be reported "
+             "unknown), v an argument value of arity 0..3 drawn from the complete matrix Empty / pool / pool^2 / "
+             "subpool^3, from type-directed random arguments, or from the len/substring unit-consistency sweep; the "
+             "observed outcome is compared with the reference builtin (bit-exact value, error where the reference "
+             "says error); non-trivial = the reference claims an outcome (not `unclaimed`); distinct = distinct "
+             "(name, argument) renderings",
+        assumptions=COMMON + [
+            "f64 library functions and Unicode case mapping / trimming are std's on both sides; only the wiring is checked",
+            "not claimed (accepted, any non-panicking outcome): shifts outside 0..63, min/max with NaN or of an empty tuple, "
+            "substring byte indices inside a character, Empty needle in contains, escaping of quotes inside tuple renderings",
+            "len/substring unit is inferred from the observed len (bytes or characters); only consistency is required",
+        ],
+    ),
 }
